@@ -58,6 +58,23 @@ def make_jobs(ctx: Ctx, count: int) -> list[dict]:
             "modulation": False, "kind": "rydberg", "seed": ctx.seed * 100003 + 900 + k, "init": None, "gap_factor": 3.0,
             "strata": {"n": n, "style": "cold-start-ring", "layout": "ring", "dt": 10.0, "prec": [1e-5, 1e-7][k % 2], "spacing": spacing},
         })
+    # plateaus: consecutive constant pulses that differ in exactly ONE of amplitude / detuning / phase (everything else bit-identical):
+    # a solver that skips work "because the drive did not change" must look at all three
+    base = len(jobs)
+    for k, which in enumerate(["phase", "det", "amp"] if ctx.quick else ["phase", "det", "amp", "phase", "det", "amp"]):
+        n = [3, 4, 3, 5, 4, 3][k]
+        d = 40
+        om, de, ph = rng.uniform(3.0, 8.0), rng.uniform(2.0, 10.0), rng.choice([0.0, 0.4])
+        om2, de2, ph2 = (om, de, ph + rng.uniform(1.0, 2.5)) if which == "phase" else (om, de + rng.uniform(3.0, 6.0), ph) if which == "det" else (om * 0.4, de, ph)
+        spec = seqs.simple_spec(n, "line", rng.uniform(6.0, 7.5), {"k": "const", "d": d, "v": om}, {"k": "const", "d": d, "v": de}, phase=ph)
+        spec["ops"].append({"op": "add", "ch": "ryd", "pulse": {"amp": {"k": "const", "d": d, "v": om2}, "det": {"k": "const", "d": d, "v": de2}, "phase": ph2}})
+        times = [0.25, 0.5, 0.75, 1.0]
+        jobs.append({
+            "id": base + k + 1, "seq": spec, "dt": 10.0, "precision": 1e-7, "max_bond_dim": 1024, "reorder": k % 2 == 0, "solver": "dmrg",
+            "obs": [{"k": "energy", "times": times}, {"k": "occupation", "times": times}], "default_times": None,
+            "modulation": False, "kind": "rydberg", "seed": ctx.seed * 100003 + 950 + k, "init": None, "gap_factor": 3.0,
+            "strata": {"n": n, "style": f"plateau-{which}-changes", "layout": "line", "dt": 10.0, "prec": 1e-7},
+        })
     return jobs
 
 
